@@ -95,12 +95,9 @@ func vC12Unary[T vNum]() {
 	kfReuseOrder := (mode == "reuse" || mode == "incr") && ((vCfgStr("ld") == "F") != (vCfgStr("la") == "F")) // (unary incr into the other data order is wrong on the pinned tree too; binary arithmetic incr is not: see h_c06.go)
 	for k := 0; k < n; k++ {
 		if mode == "incr" {
-			switch op {
-			case "Neg":
-				vAssertKF(vSameBits(got[k], dw[k]+(-aw[k])), "incr-value", "KF-C16-reuse-order", kfReuseOrder)
-			case "Square":
-				vAssertKF(vSameBits(got[k], dw[k]+aw[k]*aw[k]), "incr-value", "KF-C16-reuse-order", kfReuseOrder)
-			}
+			// delivered value = old destination + op(x), for every operation
+			r1, r2 := vUnValues(op, aw[k], lo, hi)
+			vAssertKF(vOr(vSameBits(got[k], dw[k]+r1), vSameBits(got[k], dw[k]+r2)), "incr-value", "KF-C16-reuse-order", kfReuseOrder)
 			continue
 		}
 		vAssertKF(vUnMatch(op, got[k], aw[k], lo, hi), "value", "KF-C16-reuse-order", kfReuseOrder)
